@@ -158,6 +158,19 @@ def zsets_cases():
         for hi in bounds:
             yield Always(mk + [[b'zrangebyscore', b'z', lo, hi], [b'zcount', b'z', lo, hi], [b'zrevrangebyscore', b'z', hi, lo, b'withscores'],
                                [b'zrank', b'z', b''], [b'zscore', b'z', b''], [b'zremrangebyscore', b'z', lo, hi], [b'zrange', b'z', b'0', b'-1', b'withscores']])
+    # every float literal form at every place of the sorted-set commands that decodes one (each place has its own converter / flags:
+    # range bounds take out-of-range literals as +-inf / 0, scores and increments refuse them)
+    forms = [b'1e999', b'-1e999', b'1e-999', b'-1e-999', b'(1e999', b'(-1e999', b'(1e-999', b'1e308', b'1.5e308', b'2e308', b'4.9e-324', b'2e-324', b'+inf',
+             b'-infinity', b'Infinity', b'(inf', b'nan', b'(nan', b'0x10', b' 1', b'1 ', b'(1 ', b'( 1', b'1_0', b'1e', b'.5', b'5.', b'1e+2', b'1E2', b'',
+             b'(', b'+', b'-', b'1\x00', b'((1', b'[1']
+    mk = [[b'zadd', b'z', b'-inf', b'n', b'-1', b'm', b'0', b'z', b'1', b'a', b'inf', b'p']]
+    for fm in forms:
+        yield Always(mk + [[b'zcount', b'z', b'0', fm], [b'zcount', b'z', fm, b'0'], [b'zrangebyscore', b'z', fm, b'+inf'], [b'zrevrangebyscore', b'z', fm, b'-inf', b'withscores'],
+                           [b'zrangebyscore', b'z', b'-inf', fm, b'limit', b'0', b'2'], [b'zremrangebyscore', b'z', fm, fm], [b'zremrangebyscore', b'z', b'1', fm],
+                           [b'zrange', b'z', b'0', b'-1', b'withscores']])
+        yield Always(mk + [[b'zadd', b'z', fm, b'new'], [b'zadd', b'z', b'xx', b'ch', fm, b'a'], [b'zincrby', b'z', fm, b'a'], [b'zadd', b'z', b'incr', fm, b'm'],
+                           [b'zrange', b'z', b'0', b'-1', b'withscores'],
+                           [b'zunionstore', b'd', b'1', b'z', b'weights', fm], [b'zrange', b'd', b'0', b'-1', b'withscores']])
     mk = [[b'zadd', b'z', b'0', b'', b'0', b'a', b'0', b'b']]
     for lo in (b'-', b'+', b'[', b'(', b'[a', b'(a'):
         for hi in (b'-', b'+', b'[', b'(', b'[a', b'(a', b'[b'):
